@@ -1670,6 +1670,11 @@ func ruleC20NilOnlyForNil(c *Ctx) {
 							pred := x.Block().Preds[k]
 							walk(e, pred.Instrs[len(pred.Instrs)-1], seen)
 						}
+					case *ssa.Call:
+						// slices.Clone / maps.Clone return nil exactly for a nil argument
+						if k := core.CalleeKey(&x.Call); (strings.HasPrefix(k, "slices.Clone") || strings.HasPrefix(k, "maps.Clone")) && len(x.Call.Args) == 1 {
+							walk(x.Call.Args[0], at, seen)
+						}
 					}
 				}
 				walk(v, i, map[ssa.Value]bool{})
